@@ -150,7 +150,7 @@ def main():
         },
         "engines": [
             {"name": "S", "path": "/verif/harness/src/sched.rs", "serves_properties": sorted(k for k, v in CHECKS.items() if v[0] == "S"),
-             "kind_free_text": "stateless schedule explorer: cooperative token-passing scheduler over OS threads running the real code, scheduling points at the cfg(rip_verif) hooks, lock predicates on the real locks, DFS with preemption bounding, deterministic replay"},
+             "kind_free_text": "stateless schedule explorer: cooperative token-passing scheduler over OS threads running the real code, scheduling points at the cfg(rip_verif) hooks (incl. lock acquisitions, predicates on the real locks), DFS with preemption bounding, deterministic replay, crash and I/O-error injection; for C18 and the reader-vs-appender harness race.rs (C04, C08, C09, C10) every file-system call of the code under test is a scheduling point (callback from the LD_PRELOAD shim harness/shim/crashshim.c)"},
             {"name": "K", "path": "/verif/harness/src/c05.rs + /verif/harness/shim/crashshim.c", "serves_properties": ["C05"],
              "kind_free_text": "crash-point enumerator: LD_PRELOAD shim counting mutating fs calls on store paths, _exit before call k for every k, recovery oracle in the parent"},
             {"name": "P", "path": "/verif/harness/src/provx.rs", "serves_properties": sorted(k for k, v in CHECKS.items() if v[0] == "P"),
@@ -164,7 +164,7 @@ def main():
         ],
         "checks": checks,
         "not_applicable": na,
-        "notes": "All checks are bounded exhaustive explorations of the real Rust code (no sampling, no solver). Exit 2 = machinery failure, never a verdict. Known findings: /verif/known_findings.json.",
+        "notes": "All checks are bounded exhaustive explorations of the real Rust code (no sampling, no solver). Exit 2 = machinery failure, never a verdict. Known findings: /verif/known_findings.json (signature = exact / prefix, signature_regex = regular expression over the whole signature; fixed entries suppress nothing). --replay re-executes exactly the saved case for C01, C02, C04, C05, C06, C11-C15, C18, C20 and re-runs the (seconds-long) enumeration judging only the saved case for C03, C07-C10, C16, C17, C19. Seeded changes used to test the checks: /verif/seeded (DESIGN.md section 8; tools/seed_regression.sh re-runs them).",
     }
     with open("/verif/MANIFEST.json", "w") as f:
         json.dump(manifest, f, indent=1)
